@@ -16,6 +16,8 @@ import (
 	"os"
 	"reflect"
 	"sort"
+	"strconv"
+	"strings"
 	"syscall"
 	"time"
 
@@ -56,7 +58,15 @@ func datagram(class string, seq int) []byte {
 	if class == "valid-index-0" {
 		v["EventIndex"] = uint32(0)
 	}
-	d := spec.EncodeMessage(0x17, 0x20, serial, spec.StatusReply, v)
+	from := serial
+	if strings.HasPrefix(class, "valid@") { // a valid event from another controller
+		n, err := strconv.ParseUint(class[6:], 10, 32)
+		if err != nil {
+			panic(class)
+		}
+		from, class = uint32(n), "valid"
+	}
+	d := spec.EncodeMessage(0x17, 0x20, from, spec.StatusReply, v)
 	off := func(name string) int {
 		for _, f := range spec.StatusReply {
 			if f.Name == name {
@@ -102,7 +112,7 @@ func datagram(class string, seq int) []byte {
 }
 
 func isValid(class string) bool {
-	return class == "valid" || class == "valid-v6.62" || class == "valid-index-0"
+	return class == "valid" || class == "valid-v6.62" || class == "valid-index-0" || strings.HasPrefix(class, "valid@")
 }
 
 type rec struct {
@@ -213,7 +223,7 @@ func scenario(name string, seq []string, stopAfter int, senders int, bound int, 
 			for _, d := range r.readLog {
 				ok := len(d) == 64 && (d[0] == 0x17 || d[0] == 0x19) && d[1] == 0x20 && binary.LittleEndian.Uint32(d[4:8]) != 0
 				if ok {
-					ex := spec.ExpectReply(statusOp, serial, spec.Args{}, d)
+					ex := spec.ExpectReply(statusOp, binary.LittleEndian.Uint32(d[4:8]), spec.Args{}, d)
 					ok = !ex.AnyOut
 				}
 				if ok {
@@ -250,7 +260,7 @@ func scenario(name string, seq []string, stopAfter int, senders int, bound int, 
 				add("event-count", fmt.Sprintf("cycle %d: %d events delivered, %d well-formed events were received", c, len(events), len(wantEvents)))
 			} else {
 				for i, ev := range events {
-					ex := spec.ExpectReply(statusOp, serial, spec.Args{}, wantEvents[i])
+					ex := spec.ExpectReply(statusOp, binary.LittleEndian.Uint32(wantEvents[i][4:8]), spec.Args{}, wantEvents[i])
 					if v := spec.Judge(ex, spec.Observed{Fields: ev.snap}); v.Class != "" {
 						add("event-content-or-order", fmt.Sprintf("cycle %d: event %d is not the decoding of received datagram %d: %s", c, i, i, v.Detail))
 					}
@@ -567,6 +577,17 @@ func main() {
 		ls.Deviations = 2 // at most 2 non-default choices of any kind (forced-switch orders included)
 		ls.Shards = 4
 		scenarios = append(scenarios, ls)
+	}
+	// events from sixteen controllers whose serial numbers differ in every way a model-dependent decoder
+	// could care about (each leading decimal digit, the extremes), door and button flags in all patterns
+	{
+		seq := []string{}
+		for _, sn := range []uint32{1, 99999999, 105419896, 199999999, 201020304, 299999999, 303986753, 423187757, 500000000, 600000001, 757781324, 800000000, 999999999, 0x7fffffff, 0xfffffffe, 0xffffffff} {
+			seq = append(seq, fmt.Sprintf("valid@%d", sn))
+		}
+		sc := scenario("serials/16-valid-from-16-controllers", seq, 16, 1, 1, 1, false)
+		sc.Deviations = 1
+		scenarios = append(scenarios, sc)
 	}
 	// a burst far longer than any plausible internal queue (bounded buffers, rings, batches), while
 	// nothing consumes: every event must still be delivered, none may turn into an error
